@@ -22,7 +22,7 @@ import (
 
 func init() { Registry["C16"] = Check{Level: "model_checking", Fn: runC16} }
 
-var c16Chars = []string{"a", "_", "é", "1", ".", "e", "x", "+", "-", "'", `"`, "`", "[", "]", "(", ")", ",", "*", " ", "\x80"}
+var c16Chars = []string{"a", "_", "é", "1", ".", "e", "x", "+", "-", "'", `"`, "`", "[", "]", "(", ")", ",", "*", " ", "\x80", "<", ">", "=", "|", "!", "/"}
 
 var c16Tokens = []string{
 	"CREATE", "TABLE", "INDEX", "UNIQUE", "SELECT", "FROM", "ON", "WHERE", "PRIMARY", "KEY", "NOT", "NULL", "DEFAULT", "COLLATE", "CHECK", "REFERENCES",
@@ -76,7 +76,7 @@ func c16Parse(w *c16Watch, s string) (res interface{}, err error, panicked inter
 }
 
 func runC16(r *ev.Run) {
-	r.Rule = "(i) every string of length <=5 (6 thorough) over a 20-symbol character alphabet taken from the tokenizer's branches; (ii) every token sequence of length <=4 (5 over a reduced alphabet, thorough) over a 63-token alphabet incl. extreme numbers, unterminated and doubled quotes, multi-byte identifiers, and every one-token deletion/replacement/insertion of SQLite-valid CREATE statements; (iii) locality: an alphabet of column definitions, indexed columns and table constraints (all accepted by real SQLite), every ordered pair and triple (quadruple thorough) as one statement: what is reported for element i must equal what is reported for the same text as the only element; determinism: same result twice and after parsing any other statement of the alphabet. oracle: returns (no panic, no hang), deep-equal results. non-trivial = inputs the parser accepts"
+	r.Rule = "(i) every string of length <=5 (6 thorough) over a 26-symbol character alphabet taken from the tokenizer's branches (letters, digits, quotes, brackets, operator characters, an invalid byte), each parsed twice in a row; (i') every operator string of length <=3 (4 thorough) over 12 operator characters inside 6 statement templates, each parsed 16 times (map iteration order is the one source of nondeterminism no scheduler controls); (ii) every token sequence of length <=4 (5 over a reduced alphabet, thorough) over a 63-token alphabet (each parsed twice in a row) incl. extreme numbers, unterminated and doubled quotes, multi-byte identifiers, and every one-token deletion/replacement/insertion of SQLite-valid CREATE statements; (iii) locality: an alphabet of column definitions, indexed columns and table constraints (all accepted by real SQLite), every ordered pair and triple (quadruple thorough) as one statement: what is reported for element i must equal what is reported for the same text as the only element; determinism: same result twice and after parsing any other statement of the alphabet. oracle: returns (no panic, no hang), deep-equal results. non-trivial = inputs the parser accepts"
 	w := newC16Watch()
 	go func() {
 		for {
@@ -114,7 +114,7 @@ func runC16(r *ev.Run) {
 			}
 			s := sb.String()
 			count++
-			res, err, p := c16Parse(lw, s)
+			res, err, p := c16Twice(r, lw, s)
 			if p != nil {
 				r.Violation("C16:panic:string", fmt.Sprintf("sql.Parse(%q) panics: %v", s, p), map[string]interface{}{"input": s})
 			} else if err == nil {
@@ -159,7 +159,7 @@ func runC16(r *ev.Run) {
 			}
 			s := strings.Join(parts, " ")
 			count++
-			_, err, p := c16Parse(lw, s)
+			_, err, p := c16Twice(r, lw, s)
 			if p != nil {
 				r.Violation("C16:panic:tokens", fmt.Sprintf("sql.Parse(%q) panics: %v", s, p), map[string]interface{}{"input": s})
 			} else if err == nil {
@@ -208,9 +208,99 @@ func runC16(r *ev.Run) {
 	}
 	r.Sample(map[string]interface{}{"family": "tokens", "example": "CREATE TABLE éa ( 0x1FFFFFFFFFFFFFFFF", "alphabet_size": nt})
 
+	c16Operators(r)
 	c16Edits(r, w)
 	c16Locality(r, w)
 	r.Set("accepted_inputs", accepted)
+}
+
+// c16Same: two results of parsing the same string are the same result
+func c16Same(r1 interface{}, e1 error, r2 interface{}, e2 error) bool {
+	if (e1 == nil) != (e2 == nil) {
+		return false
+	}
+	if e1 != nil {
+		return e1.Error() == e2.Error()
+	}
+	return reflect.DeepEqual(r1, r2)
+}
+
+// c16Twice parses s twice in a row and reports a difference as a violation
+func c16Twice(r *ev.Run, w *c16Watch, s string) (interface{}, error, interface{}) {
+	res, err, p := c16Parse(w, s)
+	if p != nil {
+		return res, err, p
+	}
+	res2, err2, p2 := c16Parse(w, s)
+	if p2 != nil {
+		return res2, err2, p2
+	}
+	if !c16Same(res, err, res2, err2) {
+		r.Violation("C16:nondeterministic:repeat", fmt.Sprintf("sql.Parse(%q) twice in a row: first %v / %v, then %v / %v", s, res, err, res2, err2), map[string]interface{}{"input": s})
+	}
+	return res, err, nil
+}
+
+// c16Operators: every string of length <= n over the operator characters, as the operator of an
+// expression in four statement templates (with and without surrounding blanks), each parsed 16 times:
+// one result. Iteration order of a Go map is the one source of nondeterminism a parser can
+// have without any shared state; it is not controllable, hence the repetitions.
+func c16Operators(r *ev.Run) {
+	chars := []string{"+", "-", "*", "/", "%", "<", ">", "=", "!", "|", "&", "~"}
+	maxLen := 3
+	if r.Thorough() {
+		maxLen = 4
+	}
+	var ops []string
+	var rec func(cur string, n int)
+	rec = func(cur string, n int) {
+		if n > 0 {
+			ops = append(ops, cur)
+		}
+		if n == maxLen {
+			return
+		}
+		for _, c := range chars {
+			rec(cur+c, n+1)
+		}
+	}
+	rec("", 0)
+	templates := []string{
+		"CREATE INDEX i ON t (a %s b)",
+		"CREATE INDEX i ON t (a%sb)",
+		"CREATE INDEX i ON t (a) WHERE a %s 1",
+		"CREATE TABLE t (a CHECK (a %s 1))",
+		"CREATE TABLE t (a DEFAULT (1%s2), b)",
+		"SELECT a FROM t WHERE a %s 'x'",
+	}
+	r.Set("operator_strings", len(ops))
+	ev.Parallel(len(ops), func(i int) {
+		lw := newC16Watch()
+		for _, tpl := range templates {
+			s := fmt.Sprintf(tpl, ops[i])
+			res, err, p := c16Parse(lw, s)
+			r.Eval(1)
+			r.Trans(16)
+			if p != nil {
+				r.Violation("C16:panic:operators", fmt.Sprintf("sql.Parse(%q) panics: %v", s, p), map[string]interface{}{"input": s})
+				continue
+			}
+			if err == nil {
+				r.Nontrivial(s)
+			}
+			for k := 1; k < 16; k++ {
+				res2, err2, p2 := c16Parse(lw, s)
+				if p2 != nil {
+					r.Violation("C16:panic:operators", fmt.Sprintf("sql.Parse(%q) panics: %v", s, p2), map[string]interface{}{"input": s})
+					break
+				}
+				if !c16Same(res, err, res2, err2) {
+					r.Violation("C16:nondeterministic:operators", fmt.Sprintf("sql.Parse(%q): parse 1 gives %v / %v, parse %d gives %v / %v", s, res, err, k+1, res2, err2), map[string]interface{}{"input": s})
+					break
+				}
+			}
+		}
+	})
 }
 
 // tokens of a statement, split on spaces (the statements below are written
